@@ -55,7 +55,10 @@ func hexName(seed, n int) string {
 	return sb.String()
 }
 
-func genCase(t *rapid.T) Case {
+func genAlias(t *rapid.T) Case { return genCaseOpt(t, true) }
+func genCase(t *rapid.T) Case  { return genCaseOpt(t, false) }
+
+func genCaseOpt(t *rapid.T, alias bool) Case {
 	max := 12
 	steps := 14
 	if vt.Thorough() {
@@ -63,6 +66,9 @@ func genCase(t *rapid.T) Case {
 		steps = 24
 	}
 	o := gen.DAGOpts{MaxNodes: max, Referrers: true, NoBigBlobs: true, NoAbsent: true, SingleMT: rapid.IntRange(0, 2).Draw(t, "singleMT") != 0}
+	if alias {
+		o.SingleMT, o.FewBytes, o.NoForeign = false, true, true
+	}
 	c := Case{Specs: gen.Specs(t, o), AutoGC: rapid.IntRange(0, 3).Draw(t, "autoGC") != 0}
 	d := gen.Build(c.Specs)
 	ids := d.CanonIDs()
@@ -232,6 +238,19 @@ func runCase(c Case) (res vt.Result, fail *vt.Fail) {
 		}
 		return nil
 	}
+	// resync makes the model follow the store (aliased DAGs: outcome not modelled)
+	resync := func() {
+		ex := existsSet()
+		m.Stored = map[int]bool{}
+		for id := range ex {
+			m.Stored[d.Nodes[id].DCanon] = true
+		}
+		for ref := range m.Tags {
+			if _, err := s.Resolve(ctx, ref); err != nil {
+				delete(m.Tags, ref)
+			}
+		}
+	}
 	if len(c.Strays) > 0 {
 		classes["stray-files"] = true
 	}
@@ -332,9 +351,10 @@ func runCase(c Case) (res vt.Result, fail *vt.Fail) {
 					res.Classes = keys(classes)
 					return res, f
 				}
-				// the exact outcome is not modelled: stop the history here
-				res.Classes = keys(classes)
-				return res, nil
+				// the exact outcome is not modelled: follow the store and go on
+				resync()
+				classes["delete"] = true
+				continue
 			}
 			before := len(m.Stored)
 			judged := true
@@ -395,8 +415,9 @@ func runCase(c Case) (res vt.Result, fail *vt.Fail) {
 					res.Classes = keys(classes)
 					return res, f
 				}
-				res.Classes = keys(classes)
-				return res, nil
+				resync()
+				classes["gc"] = true
+				continue
 			}
 			if m.GCWouldBeUnjudged() {
 				classes["stopped-at-unjudged-gc"] = true
@@ -468,7 +489,10 @@ func short(xs []string) []string {
 }
 
 func TestMain(m *testing.M) {
-	vt.Main(m, "C09", vt.NewLeg("main", 2500, 6000, 16, genCase, runCase))
+	vt.Main(m, "C09",
+		vt.NewLeg("main", 2500, 6000, 16, genCase, runCase),
+		vt.NewLeg("alias", 1200, 4000, 8, genAlias, runCase),
+	)
 }
 
 func TestLegs(t *testing.T)   { vt.TestLegs(t) }
